@@ -42,7 +42,8 @@ import (
 	"strings"
 )
 
-const modPath = "github.com/robbyt/go-supervisor"
+// overridable by flags (the extractor self-test runs on a fixture module)
+var modPath = "github.com/robbyt/go-supervisor"
 
 var targetPkgs = []string{
 	"supervisor", "supervisor/lifecycle", "internal/finitestate",
@@ -1584,7 +1585,22 @@ func main() {
 	out := flag.String("out", "", "path of the generated AccessTable.v")
 	js := flag.String("json", "", "path of the JSON sidecar (sites with file:line, for the check script)")
 	gobin := flag.String("go", "go1.26", "go command used for `go list`")
+	module := flag.String("module", "", "module path (default: the go-supervisor module)")
+	pkgs := flag.String("pkgs", "", "comma-separated package directories relative to the module root")
+	structs := flag.String("structs", "", "comma-separated tracked structs, <pkgname>.<Type>")
 	flag.Parse()
+	if *module != "" {
+		modPath = *module
+	}
+	if *pkgs != "" {
+		targetPkgs = strings.Split(*pkgs, ",")
+	}
+	if *structs != "" {
+		trackedStructs = map[string]bool{}
+		for _, s := range strings.Split(*structs, ",") {
+			trackedStructs[s] = true
+		}
+	}
 	absRepo, _ := filepath.Abs(*repo)
 	if r, err := filepath.EvalSymlinks(absRepo); err == nil {
 		absRepo = r
